@@ -18,7 +18,7 @@ ENGINE_TRUSTED = [
     "extraction: Require Import ExtrOcamlBasic only (Extract Inductive for bool, option, unit, list, prod, sumbool, sumor); no Extract Constant; N/Z/positive/string stay Coq datatypes; OCaml 4.13.1 + ocaml/engine/driver.ml trusted for the correspondence only",
     "harness: harness/engine/inj/zz_verif_engine.go injected in package server by go build -overlay -tags verif; hooks verifManualClock/verifPoint (commit c7cc176) assumed behaviour-neutral",
     "modelled-not-verified: single shard (DBConcurrent=1), one database; Go runtime, sync.Mutex/atomics, PriorityMutex lanes; CAS protocol of GetOrNewLockManager/RemoveLockManager (modelled as atomic get-or-create / remove-when-unreferenced); sweeper driver loops checkTimeOut/checkExpried (replayed by the harness) and the millisecond wheels; free-list recycling of Lock objects (modelled as fresh allocation; harness runs with and without recycling); Go slice growth policy (grow_cap, observed via cap()); AofChannel is replaced by an idle channel that the harness drains; excluded by the properties: less-lock-version, unlock-to-wait, tree locks, reverse-key, EXECUTE data, keeplive, subscribe",
-    "granularity: each request / sweep / acknowledgement runs to completion (sequential schedules) except in the sched* profiles (step-granular schedules over the verifPoint yield points, model coq/Engine/Sched.v); interleavings inside the wake-up window are exercised by the scheduler variant where a check says so",
+    "granularity: each request / sweep / acknowledgement runs to completion (sequential schedules) except in the sched* profiles (step-granular schedules over the verifPoint yield points, model coq/Engine/Sched.v; there a sweep may be a thread too: collection pass, then one doTimeOut / doExpried call per step, yield points 14 / 15; coq/Engine/SchedSweep.v: an un-interleaved sweep thread = the atomic sweep); interleavings inside the wake-up window are exercised by the scheduler variant where a check says so",
 ]
 
 
@@ -74,6 +74,8 @@ def run_engine_check(ctx, pid, profiles, monitors, n_quick, n_thorough, known_ok
     if os.path.exists(os.path.join(vlib.VERIF, "gen", "go2coq", "main.go")):
         ctx.gen()
     run = ec.Runner(ctx)
+    # Runner built Engine/SchedSweep.vo with the model (a failed build is a BuildError = violation)
+    ctx.obligation("lemma sweep_thread_alone (Engine/SchedSweep.vo): a sweep thread of Sched.v that is never interleaved computes sweep_timeouts / sweep_expiries of the sequential model", True)
     broken = coq_part(ctx, pid, extra_targets)
     tie = ec.sweeper_tie(vlib.REPO)
     ctx.obligation("source text of the sweeper driver loops (checkTimeOut / checkExpried) is the transcribed one", not tie,
